@@ -165,3 +165,15 @@ fn f05_group_array_drops_prefix_on_failure() {
     drop(r);
     assert_eq!(LIVE.load(Ordering::SeqCst), 0);
 }
+
+// #9 (C11, rule MEMO-KEY) -- KNOWN FINDING, not repaired: the memo key identifies a parser by the address of
+// `self.parser`; two distinct zero-sized memoised parsers can live at the same address and then share entries.
+// `cargo test -- --ignored f09` fails on the current tree (that is the demonstration).
+#[test]
+#[ignore]
+fn f09_zero_sized_memoized_parsers_do_not_collide() {
+    let plain = any::<&str, extra::Default>().ignored().or(end());
+    assert!(!plain.parse("").has_errors());
+    let memo = any::<&str, extra::Default>().ignored().memoized().or(end().memoized());
+    assert!(!memo.parse("").has_errors(), "memoized() changed acceptance: `any().ignored().memoized().or(end().memoized())` rejects \"\"");
+}
